@@ -219,8 +219,9 @@ def compare_results(results, snap, states, hams, *, state_tol, obs_tol, is_densi
                 worst["state_err_over_tol"] = max(worst.get("state_err_over_tol", 0.0), err / state_tol)
                 if not err <= state_tol:
                     # phase-only difference?
-                    ov = abs(np.vdot(got.reshape(-1), want.reshape(-1)))
-                    kind = "global-phase-only" if abs(ov - 1) < state_tol and not is_density else "state"
+                    ov = np.vdot(want.reshape(-1), got.reshape(-1))
+                    rot = got.reshape(-1) * np.exp(-1j * np.angle(ov)) if abs(ov) > 0 else got.reshape(-1)
+                    kind = "global-phase-only" if float(np.linalg.norm(rot - want.reshape(-1))) <= state_tol and not is_density else "state"
                     viol.append((f"state-differs-from-exact-evolution:{kind}", f"t={t_rel:.6g} (step {k}/{len(states)-1}) |dpsi|={err:.3e} tol={state_tol:.3e}"))
                 continue
             if tag in ("occupation", "correlation_matrix", "energy", "energy_variance", "energy_second_moment"):
